@@ -70,7 +70,7 @@ def gen_inputs(key, r):
     if base == 'distance_wei_floyd:inv':
         A = _dir(r, n, p=float(r.choice([.2, .4, .7]))) if r.random_sample() < .6 else _und(r, n, p=float(r.choice([.3, .6])))
         return dict(adjacency=np.abs(A), transform='inv')
-    if base == 'distance_wei_floyd':
+    if base in ('distance_wei_floyd', 'distance_wei_floyd:paths'):
         A = _dir(r, n, p=float(r.choice([.2, .4, .7]))) if r.random_sample() < .6 else _und(r, n, p=float(r.choice([.3, .6])))
         return dict(adjacency=np.abs(A), transform=None)
     if base == 'efficiency_wei':
